@@ -7,12 +7,19 @@
 // completely: the placement is constant between two consecutive section hashes of the new ring, so for every
 // section of the new ring its replica list is compared with the replica list of the old ring's successor section
 // of the same hash. GetN is cross-checked against the section tables on a series family incl. the wrap-around.
+//
+// Address SHAPES (shapes_test.go): besides three ordinary naming schemes the rings are built from long Kubernetes
+// style names whose only differing byte (the ordinal) comes late (around and after byte 64 / 128 / 256), names of
+// exactly 63/64/65 (31..33, 127..129, 255..257) bytes, and names that are prefixes of one another; the added node
+// has the shape of the ring, or a short name joins a ring of shaped names, or a shaped name joins a ring of short ones.
 package c20
 
 import (
 	"fmt"
 	"iter"
 	"sort"
+	"strings"
+	"sync/atomic"
 	"testing"
 
 	"github.com/prometheus/client_golang/prometheus"
@@ -24,23 +31,42 @@ import (
 )
 
 type Case struct {
-	Family int `json:"family"` // naming scheme of the nodes
+	Family int `json:"family"` // naming scheme / address shape of the nodes (index into families)
 	M      int `json:"m"`      // nodes in the new ring
 	X      int `json:"x"`      // index of the added node in the new ring's endpoint list
 	RF     int `json:"rf"`
+	// Mix: 0 = every node is named by Family; 1 = the added node has a short name (family 0) and joins a ring named by
+	// Family; 2 = the added node is named by Family and joins a ring of short names (family 0).
+	Mix int `json:"mix,omitempty"`
 }
 
-var families = []func(i int) string{
-	func(i int) string { return fmt.Sprintf("node-%d:10901", i) },
-	func(i int) string {
-		return fmt.Sprintf("thanos-receive-%d.thanos-receive.monitoring.svc.cluster.local:10901", i)
-	},
-	func(i int) string { return fmt.Sprintf("10.0.%d.%d:19291", i%3, 200-17*i) },
+// address is the address of node i of the new ring.
+func (c Case) address(i int) string {
+	f := c.Family
+	if (c.Mix == 1 && i == c.X) || (c.Mix == 2 && i != c.X) {
+		f = 0
+	}
+	return families[f].addr(i)
 }
 
 func (c Case) endpoint(i int) receive.Endpoint {
-	a := families[c.Family](i)
+	a := c.address(i)
 	return receive.Endpoint{Address: a, CapNProtoAddress: a}
+}
+
+// describe lists the addresses of a configuration for a counter-example.
+func (c Case) describe() string {
+	var b strings.Builder
+	fmt.Fprintf(&b, "scheme %q, nodes:", families[c.Family].name)
+	for i := 0; i < c.M; i++ {
+		a := c.address(i)
+		tag := ""
+		if i == c.X {
+			tag = " (added)"
+		}
+		fmt.Fprintf(&b, " [%d]%s %dB %q", i, tag, len(a), a)
+	}
+	return b.String()
 }
 
 func (c Case) lists() (old, cur []receive.Endpoint) {
@@ -53,12 +79,41 @@ func (c Case) lists() (old, cur []receive.Endpoint) {
 	return
 }
 
-func gen(maxM, maxRF int) iter.Seq[Case] {
+type bounds struct {
+	maxM, maxRF           int  // ordinary naming schemes
+	shapeMaxM, shapeMaxRF int  // address shapes (rings of 3..shapeMaxM nodes after the addition)
+	thorough              bool // include the thorough-only shapes
+}
+
+// gen: ring sizes ascending; per size first the address shapes (small rings only), then the ordinary schemes.
+func gen(b bounds) iter.Seq[Case] {
 	return func(yield func(Case) bool) {
-		for m := 2; m <= maxM; m++ {
-			for f := range families {
+		for m := 2; m <= max(b.maxM, b.shapeMaxM); m++ {
+			if m >= 3 && m <= b.shapeMaxM {
+				for f, s := range families {
+					if !s.shape || (s.thorough && !b.thorough) {
+						continue
+					}
+					for mix := 0; mix <= 2; mix++ {
+						for x := 0; x < m; x++ {
+							for rf := 1; rf <= min(b.shapeMaxRF, m-1); rf++ {
+								if !yield(Case{Family: f, M: m, X: x, RF: rf, Mix: mix}) {
+									return
+								}
+							}
+						}
+					}
+				}
+			}
+			if m > b.maxM {
+				continue
+			}
+			for f, s := range families {
+				if s.shape {
+					continue
+				}
 				for x := 0; x < m; x++ {
-					for rf := 1; rf <= min(maxRF, m-1); rf++ {
+					for rf := 1; rf <= min(b.maxRF, m-1); rf++ {
 						if !yield(Case{Family: f, M: m, X: x, RF: rf}) {
 							return
 						}
@@ -78,7 +133,7 @@ func series(i int) *prompb.TimeSeries {
 	return &prompb.TimeSeries{Labels: []labelpb.ZLabel{{Name: "__name__", Value: "m"}, {Name: "i", Value: fmt.Sprint(i)}}}
 }
 
-// succ is the index of the first section whose hash is >= v, wrapping to 0.
+// succ is the index of the first section whose hash is >= v, wrapping to 0 (what GetN does).
 func succ(secs []receive.VerifC20Section, v uint64) int {
 	i := sort.Search(len(secs), func(i int) bool { return secs[i].Hash >= v })
 	if i == len(secs) {
@@ -87,13 +142,17 @@ func succ(secs []receive.VerifC20Section, v uint64) int {
 	return i
 }
 
-type checker struct{ r *vlib.R }
+type checker struct {
+	r *vlib.R
+	// totals, added to the evidence once at the end
+	intervals, changed, shapeCases, ties atomic.Int64
+}
 
 // compare decides the property for one point of the hash space. Node sets are bitmasks over node numbers.
 func (k *checker) compare(c Case, where func() string, oldSet, newSet uint64) bool {
 	xbit := uint64(1) << uint(c.X)
 	if newSet&^(oldSet|xbit) != 0 {
-		k.r.Violation("series-moved-between-pre-existing-nodes", fmt.Sprintf("%s: replica nodes %b before, %b after adding node %d: a pre-existing node gained the series", where(), oldSet, newSet, c.X), c)
+		k.r.Violation("series-moved-between-pre-existing-nodes", fmt.Sprintf("%s: replica nodes %b before, %b after adding node %d: a pre-existing node gained the series; %s", where(), oldSet, newSet, c.X, c.describe()), c)
 		return false
 	}
 	lost := 0
@@ -101,22 +160,41 @@ func (k *checker) compare(c Case, where func() string, oldSet, newSet uint64) bo
 		lost++
 	}
 	if lost > 1 {
-		k.r.Violation("more-than-one-replica-replaced", fmt.Sprintf("%s: replica nodes %b before, %b after adding node %d", where(), oldSet, newSet, c.X), c)
+		k.r.Violation("more-than-one-replica-replaced", fmt.Sprintf("%s: replica nodes %b before, %b after adding node %d; %s", where(), oldSet, newSet, c.X, c.describe()), c)
 		return false
 	}
 	return true
 }
 
+// eval never lets a panic of the code under test escape: it is a counter-example of its own class.
 func (k *checker) eval(c Case) {
+	defer func() {
+		if p := recover(); p != nil {
+			if s, ok := p.(string); ok && strings.HasPrefix(s, "HARNESS-ERROR") {
+				panic(p)
+			}
+			k.r.Violation("panic-building-or-querying-the-ring", fmt.Sprintf("panic: %v; %s", p, c.describe()), c)
+		}
+	}()
+	k.evalCase(c)
+}
+
+func (k *checker) evalCase(c Case) {
 	r := k.r
 	if r.Expired("configurations left unevaluated") {
 		return
+	}
+	if c.Family < 0 || c.Family >= len(families) || c.M < 2 || c.M > len(ordinals) || c.X < 0 || c.X >= c.M || c.RF < 1 || c.RF >= c.M || c.Mix < 0 || c.Mix > 2 {
+		panic(fmt.Sprintf("HARNESS-ERROR case out of range: %+v", c))
 	}
 	r.Sample(c)
 	oldL, newL := c.lists()
 	ix := map[receive.Endpoint]int{}
 	for i := 0; i < c.M; i++ {
 		ix[c.endpoint(i)] = i
+	}
+	if len(ix) != c.M {
+		panic(fmt.Sprintf("HARNESS-ERROR addresses are not pairwise different: %s", c.describe()))
 	}
 	set := func(es []receive.Endpoint) (uint64, bool) {
 		var m uint64
@@ -131,46 +209,72 @@ func (k *checker) eval(c Case) {
 	}
 	oldR, err := build(oldL, c.RF)
 	if err != nil {
-		r.Violation("ring-not-constructible", fmt.Sprintf("old ring: %v", err), c)
+		r.Violation("ring-not-constructible", fmt.Sprintf("old ring: %v; %s", err, c.describe()), c)
 		return
 	}
 	newR, err := build(newL, c.RF)
 	if err != nil {
-		r.Violation("ring-not-constructible", fmt.Sprintf("new ring: %v", err), c)
+		r.Violation("ring-not-constructible", fmt.Sprintf("new ring: %v; %s", err, c.describe()), c)
 		return
 	}
 	oldS, newS := receive.VerifC20Sections(oldR), receive.VerifC20Sections(newR)
 	if len(oldS) != (c.M-1)*receive.SectionsPerNode || len(newS) != c.M*receive.SectionsPerNode {
-		r.T.Fatalf("HARNESS-ERROR section tables have %d / %d entries", len(oldS), len(newS))
+		panic(fmt.Sprintf("HARNESS-ERROR section tables have %d / %d entries", len(oldS), len(newS)))
 	}
 	if c.RF >= 2 && c.M >= 3 {
 		r.Nontrivial(fmt.Sprint(c))
 	}
+	if families[c.Family].shape {
+		k.shapeCases.Add(1)
+	}
 
-	// ---- the whole hash space, interval by interval of the new ring
-	changed := int64(0)
-	for si := range newS {
-		s := &newS[si]
-		o := &oldS[succ(oldS, s.Hash)]
+	// ---- the whole hash space. The placement of a hash v is decided by the first section with hash >= v in either
+	// ring (GetN), so it is constant between two consecutive values of the union of both rings' section hashes:
+	// one comparison per such value (sections with equal hashes are one value, the first of them decides as in GetN).
+	changed, intervals, ties := int64(0), int64(0), int64(0)
+	at := func(h uint64, what string, si int) bool {
+		s, o := &newS[succ(newS, h)], &oldS[succ(oldS, h)]
 		if len(s.Replicas) < c.RF || len(o.Replicas) < c.RF {
-			r.Violation("section-has-fewer-replicas-than-rf", fmt.Sprintf("new section %d: %d replicas, old: %d", si, len(s.Replicas), len(o.Replicas)), c)
-			return
+			r.Violation("section-has-fewer-replicas-than-rf", fmt.Sprintf("hash %d: %d replicas in the new ring, %d in the old; %s", h, len(s.Replicas), len(o.Replicas), c.describe()), c)
+			return false
 		}
 		ns, ok1 := set(s.Replicas[:c.RF])
 		os, ok2 := set(o.Replicas[:c.RF])
 		if !ok1 || !ok2 {
-			r.Violation("replica-is-not-a-configured-endpoint", fmt.Sprintf("new section %d: %v / %v", si, s.Replicas, o.Replicas), c)
-			return
+			r.Violation("replica-is-not-a-configured-endpoint", fmt.Sprintf("hash %d: %v / %v", h, s.Replicas, o.Replicas), c)
+			return false
 		}
+		intervals++
 		if ns != os {
 			changed++
 		}
-		if !k.compare(c, func() string { return fmt.Sprintf("hashes up to %d (section %d of the new ring)", s.Hash, si) }, os, ns) {
+		return k.compare(c, func() string { return fmt.Sprintf("hashes up to %d (%s section %d)", h, what, si) }, os, ns)
+	}
+	for si := range newS {
+		if si > 0 && newS[si].Hash == newS[si-1].Hash {
+			ties++
+			continue
+		}
+		if !at(newS[si].Hash, "new ring's", si) {
 			return
 		}
 	}
-	r.Add("hash_intervals_checked", int64(len(newS)))
-	r.Add("hash_intervals_whose_replica_set_changed", changed)
+	for si := range oldS {
+		h := oldS[si].Hash
+		if si > 0 && h == oldS[si-1].Hash {
+			ties++
+			continue
+		}
+		if j := succ(newS, h); newS[j].Hash == h {
+			continue // the value was handled with the new ring's sections
+		}
+		if !at(h, "old ring's", si) {
+			return
+		}
+	}
+	k.intervals.Add(intervals)
+	k.changed.Add(changed)
+	k.ties.Add(ties)
 
 	// ---- GetN on both rings: the property at the API, and agreement of GetN with the section tables
 	for _, tn := range []string{"", "t"} {
@@ -225,11 +329,33 @@ func (k *checker) eval(c Case) {
 func TestCheck(t *testing.T) {
 	r := vlib.New(t, "C20")
 	defer r.Finish()
-	maxM := vlib.Pick(r, 7, 13)
-	maxRF := vlib.Pick(r, 4, 6)
-	r.Rule(fmt.Sprintf("rings of 2..%d nodes (after the addition) in %d naming schemes x every node as the added one (at its list position) x RF 1..min(%d, nodes before); "+
-		"every hash interval of the new ring plus 50 series x 2 tenants through GetN. Non-trivial = RF >= 2 and >= 3 nodes (a replica set can change partially)", maxM, len(families), maxRF))
-	r.Assume("no availability zones, pairwise different addresses, no two sections with the same hash; the old and the new list keep the relative order of the pre-existing nodes (order independence is C18)")
+	b := bounds{
+		maxM: vlib.Pick(r, 7, 13), maxRF: vlib.Pick(r, 4, 6),
+		shapeMaxM: vlib.Pick(r, 4, 6), shapeMaxRF: vlib.Pick(r, 2, 3),
+		thorough: r.Thorough(),
+	}
+	var ordinary, shapes []string
+	for _, s := range families {
+		switch {
+		case !s.shape:
+			ordinary = append(ordinary, s.name)
+		case !s.thorough || b.thorough:
+			shapes = append(shapes, s.name)
+		}
+	}
+	r.Rule(fmt.Sprintf("rings of 2..%d nodes (after the addition) in %d ordinary naming schemes x every node as the added one (at its list position) x RF 1..min(%d, nodes before); "+
+		"plus rings of 3..%d nodes in %d address shapes %v (ordinal late in a long name at byte D, exactly L bytes, names that are prefixes of one another) x {all nodes shaped, "+
+		"a short name joins a shaped ring, a shaped name joins a short ring} x every node as the added one x RF 1..min(%d, nodes before); "+
+		"every hash interval of the union of both rings' section hashes plus 50 series x 2 tenants through GetN. Non-trivial = RF >= 2 and >= 3 nodes (a replica set can change partially)",
+		b.maxM, len(ordinary), b.maxRF, b.shapeMaxM, len(shapes), shapes, b.shapeMaxRF))
+	r.Assume("no availability zones, pairwise different addresses; the old and the new list keep the relative order of the pre-existing nodes (order independence is C18)")
 	k := &checker{r: r}
-	vlib.ForEach(r, gen(maxM, maxRF), k.eval)
+	forEach(r, gen(b), k.eval)
+	r.Add("hash_intervals_checked", k.intervals.Load())
+	r.Add("hash_intervals_whose_replica_set_changed", k.changed.Load())
+	r.Add("address_shape_configurations", k.shapeCases.Load())
+	r.Add("sections_with_the_hash_of_their_predecessor", k.ties.Load())
+	if n := k.ties.Load(); n > 0 {
+		r.Note("%d sections share their hash with another section: there the owner is decided by the (unstable) sort of the sections", n)
+	}
 }
